@@ -198,6 +198,7 @@ def cases(c):
                     'list': bool(rng.integers(0, 2)), 'i': i})
         if i % 6 == 1 and not cx and not cy:
             out[-1]['variant'] = gen.NARROW[(i // 6) % len(gen.NARROW)]      # wav / ADC samples in a narrow integer type
+        gen.layout_variant(out[-1], i)
     # data matrices
     for N in range(2, (10 if c.tier == 'quick' else 20)):
         for m in range(1, N):
